@@ -110,7 +110,7 @@ class InstantiatedClass(parser.Class):
         if isinstance(self.original.parent_class, parser.type.TemplatedType):
             return instantiate_type(
                 self.original.parent_class, typenames, self.instantiations,
-                parser.Typename(self.namespaces())).typename
+                self.cpp_typename()).typename
         else:
             return self.original.parent_class
 
